@@ -93,6 +93,46 @@ def check(pid, tier, seed, t0, st, replay):
                                            query=q, outcome=oc, detail=payload[:300], expected_results=observed[k],
                                            project_files=[f for f, _ in files][:3],
                                            how='scan a project containing the construct, then run the query with `pathfinder query`'))
+        # every ORDERED PAIR of kinds in one FROM, on the kitchen-sink program alone: both aliases are bound,
+        # filtered through an accessor and selected; expected = product of the two populations
+        proj2 = work + '/proj2'
+        qrun.write_project(proj2, [('src/Sink.java', KITCHEN.encode())])
+        rc, out, err = run([B + '/harness', 'init-dump', proj2, work + '/graph2.txt'], timeout=600, env=dict(ENV, HOME=work))
+        obs2 = Counter()
+        if rc == 0:
+            for l in open(work + '/graph2.txt'):
+                if l.startswith('NODE '):
+                    obs2[bytes.fromhex(scan.parse_kv(l.rstrip())['type'][1:]).decode()] += 1
+        pq = []
+        ks = sorted(obs2)
+        for k1 in ks:
+            for k2 in ks:
+                if k1 != k2:
+                    pq.append(('%s|%s' % (k1, k2), 'FROM %s AS a, %s AS b WHERE a.toString() != "" && b.toString() != "" SELECT a.toString(), b.toString()' % (k1, k2)))
+        if tier == 'quick':
+            rng_ = random.Random('c19pairs/%d' % seed)
+            keep = set(rng_.sample(range(len(pq)), min(len(pq), 330)))
+            # pairs of kinds that share anything in generateProxyEnv are always kept: operator kinds with one another
+            opk = [k for k in ks if k.endswith('_expression')]
+            pq = [x for i, x in enumerate(pq) if i in keep or (x[0].split('|')[0] in opk and x[0].split('|')[1] in opk)]
+        pres, _ = qrun.run_queries(proj2, pq, work + '/q2')
+        for qid, q in pq:
+            k1, k2 = qid.split('|')
+            oc, payload = pres.get(qid, ('missing', ''))
+            evals += 1
+            ok = False
+            if oc == 'ok':
+                try:
+                    rs, rows = qrun.parse_result(payload)
+                    ok = len(rows) == obs2[k1] * obs2[k2] and all(len(r) == 2 and r[0] and r[1] for r in rows)
+                except Exception as e:
+                    payload = 'unparsable: %s' % e
+            if not ok:
+                res.violations.append(dict(property=pid, what='kinds %s and %s are produced by the scanner but cannot be queried together' % (k1, k2),
+                                           query=q, outcome=oc, detail=payload[:300], expected_results=obs2[k1] * obs2[k2], program=KITCHEN,
+                                           how='scan the program, then run the query with `pathfinder query --output json`'))
+                break
+        res.coverage['kind_pairs_queried'] = len(pq)
         res.coverage.update(dict(
             evaluations=evals, distinct_nontrivial=len(observed), exhaustive=(not unseen),
             rule='every entity kind observed on the kitchen-sink family (all supported constructs, all 19 operators) is queried with `FROM k AS x SELECT x` and one accessor-based WHERE through the real processQuery; expected = number of entities of that kind in graph.Initialize; distinct = kinds',
